@@ -118,9 +118,12 @@ def verify(a):
         try:
             for prop in props:
                 rc, clause, secs, p = check(prop, a.tier)
-                ok = rc == 1
+                # (a change kept as a record of where the property's domain ends - meta["outside_domain"] - must NOT alarm)
+                outside = bool(meta.get("outside_domain"))
+                ok = rc == (0 if outside else 1)
                 bad += 0 if ok else 1
-                print(f"{sid:28s} {prop} rc={rc} {'caught' if ok else 'MISSED'} {clause} ({secs}s)", flush=True)
+                word = ("passes, as it should (outside the domain)" if ok else "ALARM on a change outside the domain") if outside else ("caught" if ok else "MISSED")
+                print(f"{sid:28s} {prop} rc={rc} {word} {clause} ({secs}s)", flush=True)
                 meta.setdefault("verified_on_repo", {})[prop] = {"tier": a.tier, "rc": rc, "clause": clause}
         finally:
             sh(["git", "-C", "/repo", "checkout", "--", "."])
@@ -137,7 +140,9 @@ def table(a):
         c = m.get("verified_on_repo") or m["catches"]
         by = "; ".join(f"{p} ({v['clause']})" for p, v in sorted(c.items()) if v["rc"] == 1) or "**NOT CAUGHT**"
         mark = ""
-        if m.get("history"):
+        if m.get("outside_domain"):
+            by = "not an alarm, deliberately: outside the property's domain as read (§11.8) - " + m["outside_domain"]
+        elif m.get("history"):
             mark = " **(an earlier version of the check missed it)**" if "missed" in m["history"] else " *(see history in meta.json)*"
         print(f"| `{m['id']}` | {m['needs']} | {by}{mark} |")
     return 0
